@@ -1758,7 +1758,7 @@ func (schema *Schema) visitJSONString(settings *schemaValidationSettings, value 
 				length++
 			}
 		}
-		if minLength != 0 && length < int64(minLength) {
+		if minLength != 0 && uint64(length) < minLength {
 			if settings.failfast {
 				return errSchema
 			}
@@ -1774,7 +1774,7 @@ func (schema *Schema) visitJSONString(settings *schemaValidationSettings, value 
 			}
 			me = append(me, err)
 		}
-		if maxLength != nil && length > int64(*maxLength) {
+		if maxLength != nil && uint64(length) > *maxLength {
 			if settings.failfast {
 				return errSchema
 			}
@@ -1881,7 +1881,7 @@ func (schema *Schema) visitJSONArray(settings *schemaValidationSettings, value [
 	lenValue := int64(len(value))
 
 	// "minItems"
-	if v := schema.MinItems; v != 0 && lenValue < int64(v) {
+	if v := schema.MinItems; v != 0 && uint64(lenValue) < v {
 		if settings.failfast {
 			return errSchema
 		}
@@ -1899,7 +1899,7 @@ func (schema *Schema) visitJSONArray(settings *schemaValidationSettings, value [
 	}
 
 	// "maxItems"
-	if v := schema.MaxItems; v != nil && lenValue > int64(*v) {
+	if v := schema.MaxItems; v != nil && uint64(lenValue) > *v {
 		if settings.failfast {
 			return errSchema
 		}
@@ -2019,7 +2019,7 @@ func (schema *Schema) visitJSONObject(settings *schemaValidationSettings, value 
 	lenValue := int64(len(value))
 
 	// "minProperties"
-	if v := schema.MinProps; v != 0 && lenValue < int64(v) {
+	if v := schema.MinProps; v != 0 && uint64(lenValue) < v {
 		if settings.failfast {
 			return errSchema
 		}
@@ -2037,7 +2037,7 @@ func (schema *Schema) visitJSONObject(settings *schemaValidationSettings, value 
 	}
 
 	// "maxProperties"
-	if v := schema.MaxProps; v != nil && lenValue > int64(*v) {
+	if v := schema.MaxProps; v != nil && uint64(lenValue) > *v {
 		if settings.failfast {
 			return errSchema
 		}
